@@ -1,7 +1,7 @@
 (* C08 model runner.  One history per line:
      <id> H <meta> <autosave> <autogc> <N> <T> <node>*N <op>*   (meta = seed.tier.index, ignored)
    node:  <m|b><d|-><s|-> ':' <succ,succ,..|-> ':' <subject|->
-   op:    P<k> | T<k>:<x>:<a|->:<t|d> | U<t> | V<k> | D<k> | G | S | R | C
+   op:    P<k> | T<k>:<x>:<a|->:<t|d> | U<t> | V<k> | D<k> | G | S | R | C | I<k> | X<v|i|a|f><id>
    Output: <id> followed by one token per op: the result, or for C the observation
    of the store and of the store reopened from its directory (printed three times:
    oci.New, NewFromFS, NewFromTar all read the same index.json / blobs). *)
@@ -23,8 +23,10 @@ let show_result r = match r with
 let () =
   iter_lines (fun l ->
     match split_ws l with
-    | id :: "H" :: _meta :: asv :: agc :: ns :: ts :: rest ->
+    | id :: "H" :: _meta :: asv :: agc :: ns :: ts :: fs :: rest ->
       let n = ios ns and t = ios ts in
+      let froms = list_of_commas fs in
+      let strays = ref [] and all_strays = ref [] in
       let ismf = Array.make n false and isd = Array.make n false and issk = Array.make n false
       and sc = Array.make n [] and sj = Array.make n None in
       let rec nodes i rest =
@@ -68,6 +70,9 @@ let () =
         let tags = obs_tags tn s in
         Buffer.add_string b "tags=";
         Buffer.add_string b (String.concat "," (List.map (fun x -> string_of_int (int_of_nat x)) tags));
+        List.iter (fun f ->
+          Buffer.add_string b (Printf.sprintf ";tf%d=%s" f
+            (String.concat "," (List.map (fun x -> string_of_int (int_of_nat x)) (obs_tags_from tn (nat_of_int f) s))))) froms;
         List.iter (fun tg ->
           match obs_resolve_tag s tg with
           | Some d -> Buffer.add_string b (Printf.sprintf ";rt%d=%s" (int_of_nat tg) (show_desc d))
@@ -98,12 +103,24 @@ let () =
         | 'U' -> do_op (OUntag (RTag (nat_of_int (ios arg))))
         | 'V' -> do_op (OUntag (RDig (nat_of_int (ios arg))))
         | 'D' -> do_op (ODelete (nat_of_int (ios arg)))
-        | 'G' -> do_op OGC
+        | 'G' ->
+          let before = Buffer.length buf in
+          do_op OGC;
+          if Buffer.sub buf before (Buffer.length buf - before) = " ok" then
+            strays := List.filter (fun (_, k) -> not (gc_sweeps_stray k)) !strays
+        | 'I' -> do_op (OInject (nat_of_int (ios arg)))
+        | 'X' ->
+          let k = match arg.[0] with 'v' -> SValidName | 'i' -> SInvalidName | 'a' -> SUnknownAlg | _ -> SBlobsFile in
+          strays := !strays @ [("x" ^ arg, k)];
+          all_strays := !all_strays @ ["x" ^ arg];
+          Buffer.add_string buf " ok"
         | 'S' -> do_op OSave
         | 'R' -> do_op OReopen
         | 'C' ->
           let o = obs !st and r = obs (reopen nn mf succs !st) in
-          Buffer.add_string buf (Printf.sprintf " C[%s|%s|%s|%s|v%d]" o r r r (if disk_valid !st then 1 else 0))
+          let xs = String.concat "," (List.map (fun tok ->
+            tok ^ (if List.mem_assoc tok !strays then "=1" else "=0")) !all_strays) in
+          Buffer.add_string buf (Printf.sprintf " C[%s|%s|%s|%s|v%d|x:%s]" o r r r (if disk_valid !st then 1 else 0) xs)
         | _ -> failwith "op") ops;
       Printf.printf "%s%s\n" id (Buffer.contents buf)
     | [] -> ()
